@@ -47,11 +47,20 @@ def aggregated_semantics(check: Check, want: tuple[str, ...] = ("P7", "W-grp", "
     ex.qual = "fuzzy output"
     snorm = next(c for c in concrete(p, "SNorm") if not ctor_params(c) and c.name != "UnboundedSum")
     tnorm = next(c for c in concrete(p, "TNorm") if not ctor_params(c))
-    ex.func_hooks[f"{snorm.qualname}.compute"] = lambda ex_, e, args, kw: App("⊕", (args[1], args[2]))
-    ex.func_hooks[f"{tnorm.qualname}.compute"] = lambda ex_, e, args, kw: App("⊗", (args[1], args[2]))
+    def ab(fi_name: str, args: list, kw: dict) -> tuple:
+        """The two operands of compute(self, a, b) / the argument of membership(self, x), given by position or by keyword."""
+        fi = p.func(fi_name)
+        names = [q.name for q in fi.params[1:]]
+        vals = list(args[1:]) + [kw[n_] for n_ in names[len(args) - 1:] if n_ in kw]
+        if len(vals) != len(names):
+            raise Unknown(f"{fi_name} called with other arguments than its parameters")
+        return tuple(vals)
+
+    ex.func_hooks[f"{snorm.qualname}.compute"] = lambda ex_, e, args, kw: App("⊕", ab(f"{snorm.qualname}.compute", args, kw))
+    ex.func_hooks[f"{tnorm.qualname}.compute"] = lambda ex_, e, args, kw: App("⊗", ab(f"{tnorm.qualname}.compute", args, kw))
     if "UnboundedSum" in p.classes:
-        ex.func_hooks[f"{p.cls('UnboundedSum').qualname}.compute"] = lambda ex_, e, args, kw: App("+", (args[1], args[2]))
-    ex.func_hooks[f"{p.cls('Constant').qualname}.membership"] = lambda ex_, e, args, kw: App("μ", (args[0].fields.get("name"), args[1]))
+        ex.func_hooks[f"{p.cls('UnboundedSum').qualname}.compute"] = lambda ex_, e, args, kw: App("+", ab(f"{p.cls('UnboundedSum').qualname}.compute", args, kw))
+    ex.func_hooks[f"{p.cls('Constant').qualname}.membership"] = lambda ex_, e, args, kw: App("μ", (args[0].fields.get("name"),) + ab(f"{p.cls('Constant').qualname}.membership", args, kw))
     ex.func_hooks["ext:np.nan_to_num"] = lambda ex_, e, args, kw: args[0]  # generic degrees are finite numbers
     x = Sym("x")
     names = ["low", "mid", "high", "rare"]
